@@ -182,6 +182,17 @@ class LGen:
                     cond = " ON %s = %s" % (a, b)
                 text_from += " %s %s%s" % (self.ch(["JOIN", "LEFT JOIN", "INNER JOIN"]), t, cond)
         if len(scope) > 1: self.tags.add("join")
+        if n_src == 1 and not siblings and self.risky is None and scope[0]["ref"] is not None and scope[0]["cols"] and self.p(0.12):
+            # LATERAL VIEW f(refs) v AS names: an unqualified reference to one of the names reads what the function's arguments read
+            # (table_lineage_analyzer.py:55-62 — no other generator reaches that substitution)
+            rs = self.refs(scope, True)
+            k = self.ch([1, 1, 2])
+            args = [self.ch(rs) for _ in range(self.ch([1, 1, 2]))]
+            names = [self.fresh("lx") for _ in range(k)]
+            text_from += " LATERAL VIEW %s%s(%s) %s AS %s" % (self.ch(["", "OUTER "]), self.ch(["explode", "f"]), ", ".join(a for a, _ in args), self.fresh("lv"), ", ".join(names))
+            srcs = frozenset(x for _, sa in args for x in sa)
+            scope.append({"ref": None, "cols": [(nm, srcs) for nm in names], "base": False, "aliased": False})
+            self.tags.add("lateral-view")
         out, items = [], []
         n_items = arity if arity is not None else 1 + self.r.below(4)
         if siblings and scope[0]["ref"] is not None and scope[0]["cols"]:
